@@ -285,7 +285,7 @@ func c11r2(c *an.Ctx) {
 	kinds := kindConsts(c)
 	isPktStream := func(v ssa.Value) bool {
 		p := an.PathOf(v)
-		return len(p.Fields) >= 2 && p.Last().Origin() == idStream.Origin() && p.Fields[len(p.Fields)-2].Name() == "ID"
+		return len(p.Fields) >= 2 && p.Last().Origin() == idStream.Origin() && nameOf(p.Fields[len(p.Fields)-2]) == "ID"
 	}
 	n := 0
 	for _, cs := range an.CallsTo(sv, true, addPairs) {
